@@ -21,6 +21,7 @@ From Coq Require Import List NArith Permutation.
 From SP Require Import Bytes Rand RandProofs.
 From SP Require Import GoLang GoAst GoAstProofs.
 From Coq Require String.
+Import String.StringSyntax.
 Import ListNotations.
 Open Scope N_scope.
 
